@@ -145,3 +145,7 @@ Definition mon_ram (inp obs : list Z) : bool :=
 
 (* kind 1703: a grant that arrives when the torrent no longer downloads is given back: nothing stays booked *)
 Definition run_ramloop (inp : list Z) : list Z := [0; 1].
+
+(* kind 1704: web seed sources are cut to the configured maximum; no configuration makes the add crash *)
+Definition run_webseed_cap (inp : list Z) : list Z :=
+  match inp with [k; c] => [0; Z.min k (Z.max 0 c)] | _ => [-779] end.
